@@ -20,6 +20,8 @@ import sys
 from .. import gen, harness, oracles
 from ..world import SimWorld
 
+EVAL_COUNTER = "worlds"
+EVAL_UNIT = "one (configuration, world) identity record along the three paths"
 LEVEL = "exploration"
 RULE = ("seeded configurations (pipelines with nested parameter maps, sweeps with expressions, optional run_space) x 3-5 "
         "in-process worlds {clock, TZ, cwd, uuid stream, prior history of 0-6 operations on it and on other configs, cosmetic "
